@@ -352,6 +352,36 @@ def run(R):
         conv = [c for c in q.calls(m.node) if q.call_name(c) == "convert_asynq_to_async"]
         R.check(len(conv) == 1 and [q.src(a) for a in conv[0].args] == ["self.fn"], "C15.ENGINES", m.qualname + ":source", R.site(m),
                 "the twin is converted from the decorated function itself", "the asyncio twin is not built from self.fn")
+    # the pair decorator's per-access copy receives the asyncio twin as it was given: the binder's .asyncio() passes the instance
+    # itself (like .asynq()), so a twin that __get__ has bound already is handed the instance twice
+    pd = repo.cls("decorators.AsyncAndSyncPairDecorator")
+    g = pd.methods.get("__get__")
+    init = pd.methods.get("__init__")
+    R.need(g is not None and init is not None, "anchor vanished: AsyncAndSyncPairDecorator.__get__/__init__")
+    ips = q.param_names(init.node)
+    R.need("asyncio_fn" in ips and ips[:2] == ["self", "fn"], "idiom: AsyncAndSyncPairDecorator.__init__ lost its asyncio_fn parameter")
+    pos = ips.index("asyncio_fn") - 2
+    ctor = [c for c in q.calls(g.node) if (q.call_name(c) or "").endswith("decorate") and c.args and q.src(c.args[0]).split(".")[-1] == pd.name]
+    R.need(ctor, "idiom: AsyncAndSyncPairDecorator.__get__ no longer builds its copy through decorate()")
+    for c in ctor:
+        extra = c.args[1:]
+        arg = extra[pos] if pos < len(extra) else None
+        for k in c.keywords:
+            if k.arg == "asyncio_fn":
+                arg = k.value
+        srcs = [arg]
+        if isinstance(arg, ast.Name):
+            srcs = [v for k_, v in common.assigned_values(g.node, arg.id) if k_ == "expr"] or [arg]
+        bound = [x for x in srcs if x is not None and any(isinstance(y, ast.Call) and (q.attr_call(y)[1] in ("__get__", "partial") or (q.call_name(y) or "").endswith("partial")
+                                                                                          or (q.call_name(y) or "").endswith("MethodType")) for y in ast.walk(x))]
+        plain = arg is not None and all(q.src(x) == "self.asyncio_fn" for x in srcs)
+        if not plain and not bound and arg is not None:
+            R.need(False, "idiom: the asyncio_fn handed to the per-access copy (`%s`) is neither self.asyncio_fn nor a recognisable binding of it" % q.src(arg)[:50])
+        R.check(plain, "C15.ENGINES", g.qualname + ":asyncio_fn", R.site(g, c),
+                "the per-access copy of the pair decorator receives self.asyncio_fn unchanged",
+                "__get__ hands the copy %s: the binder's .asyncio() already passes the instance as first argument, so a user-supplied asyncio_fn of a "
+                "method is called with the instance twice (obj.m.asyncio(x) raises TypeError while obj.m(x) works)"
+                % ("a bound asyncio_fn (`%s`)" % q.src(bound[0])[:50] if bound else "no asyncio_fn at all: a user-supplied twin is dropped for bound access"))
     R.require_min("C15.ENGINES", 7)
     R.require_min("C15.MODE", 5)
 
